@@ -417,10 +417,11 @@ _RS = 'rsatoolbox.'
 S = {}          # qualified name -> {param: provider | None(=omit)}, optional '_dims', '_self'
 
 
-def spec(_key, _dims=None, _watchdog=None, _quick=None, _max_reject=None, **params):
+def spec(_key, _dims=None, _watchdog=None, _quick=None, _max_reject=None, _thorough=None,
+         **params):
     d = dict(params)
     for k, v in (('_dims', _dims), ('_watchdog', _watchdog), ('_quick', _quick),
-                 ('_max_reject', _max_reject)):
+                 ('_max_reject', _max_reject), ('_thorough', _thorough)):
         if v is not None:
             d[k] = v
     S[_key] = d
@@ -594,7 +595,9 @@ spec('model.fitter.fit_select', model=model('ModelSelect'), **_fit_common)
 spec('model.fitter.fit_interpolate', model=model('ModelInterpolate'), **_fit_common)
 for _f in ('fit_optimize', 'fit_optimize_positive', 'fit_regress', 'fit_regress_nn'):
     spec('model.fitter.' + _f, model=model('ModelWeighted'), ridge_weight=lit(0, 0.5),
-         _dims=dict(n_cond=(4, 6), n_rdm=(2, 3)), _watchdog=10, **_fit_common)
+         _dims=dict(n_cond=(4, 6), n_rdm=(2, 3)), _watchdog=10,
+         _quick=(10 if 'optimize' in _f else None),
+         _thorough=(100 if 'optimize' in _f else None), **_fit_common)
 
 # --- inference
 _big = dict(n_cond=(8, 10), n_rdm=(4, 6))
@@ -606,28 +609,28 @@ for _f in ('eval_bootstrap', 'eval_bootstrap_pattern'):
          boot_noise_ceil=lit(True, False), _dims=dict(n_cond=(5, 7)), **_ev)
 spec('inference.evaluate.eval_bootstrap_rdm', theta=const(None), N=lit(2, 3),
      rdm_descriptor=lit('index', 'subj'), boot_noise_ceil=lit(True, False), **_ev)
-spec('inference.evaluate.crossval', _quick=8, models=models(hi=2), rdms=shared_rdms(),
+spec('inference.evaluate.crossval', _quick=8, _thorough=48, models=models(hi=2), rdms=shared_rdms(),
      train_set=cvset('train_set'), test_set=cvset('test_set'), ceil_set=cvset('ceil_set'),
      method=lit('cosine', 'corr'), fitter=const(None), pattern_descriptor=const('index'),
      calc_noise_ceil=lit(True, False), _dims=_big)
-spec('inference.evaluate.bootstrap_crossval', _quick=6, models=models(hi=2), data=R,
+spec('inference.evaluate.bootstrap_crossval', _quick=4, _thorough=24, models=models(hi=2), data=R,
      method=lit('cosine', 'corr'),
      fitter=const(None), k_pattern=lit(2, None), k_rdm=lit(2, None), N=const(2), n_cv=const(2),
      pattern_descriptor=lit('index', 'cond'), rdm_descriptor=lit('index', 'subj'),
      boot_type=lit('both', 'rdm', 'pattern'), use_correction=lit(True, False), _dims=_big)
-spec('inference.evaluate.eval_dual_bootstrap', _quick=6, models=models(hi=2), data=R,
+spec('inference.evaluate.eval_dual_bootstrap', _quick=4, _thorough=24, models=models(hi=2), data=R,
      method=lit('cosine', 'corr'),
      fitter=const(None), k_pattern=lit(1, 2), k_rdm=lit(1, 2), N=const(2), n_cv=const(2),
      pattern_descriptor=lit('index', 'cond'), rdm_descriptor=lit('index', 'subj'),
      use_correction=lit(True, False), _dims=_big)
-spec('inference.evaluate.eval_dual_bootstrap_random', _quick=6, models=models(hi=2), data=R,
+spec('inference.evaluate.eval_dual_bootstrap_random', _quick=6, _thorough=36, models=models(hi=2), data=R,
      method=lit('cosine', 'corr'), fitter=const(None), n_pattern=const(None), n_rdm=const(None),
      N=const(2), n_cv=const(2), pattern_descriptor=lit('index', 'cond'),
      rdm_descriptor=lit('index', 'subj'), boot_type=lit('both', 'rdm', 'pattern'),
      use_correction=const(True), _dims=_big)   # other n_cv / correction settings raise (not C12)
 for _f in ('bootstrap_testset', 'bootstrap_testset_pattern', 'bootstrap_testset_rdm'):
     _kw = dict(models=models(hi=2), data=R, method=lit('cosine', 'corr'), fitter=const(None),
-               N=const(2), _quick=8)
+               N=const(2), _quick=8, _thorough=48)
     if _f != 'bootstrap_testset_rdm':
         _kw['pattern_descriptor'] = lit(None, 'cond')
     if _f != 'bootstrap_testset_pattern':
@@ -662,7 +665,8 @@ _RES = 'inference.result.Result.'
 spec(_RES + 'get_ci', ci_percent=lit(0.95, 0.5), test_type=lit('t-test', 'bootstrap'))
 spec(_RES + 'get_errorbars', eb_type=lit('sem', 'ci', 'ci99'), test_type=lit('t-test',))
 for _m in ('summary', 'test_all', 'test_pairwise', 'test_zero', 'test_noise'):
-    spec(_RES + _m, test_type=test_type())
+    # (bootstrap tests of bootstrap Results raise on the pinned tree: C06's defect #27)
+    spec(_RES + _m, test_type=test_type(), _max_reject=0.6)
 spec(_RES + 'save', filename=tmpfile('pkl', 'h5'), file_type=filetype_of(), overwrite=const(True))
 spec('inference.result.load_results', filename=savedfile(result(), 'pkl', 'h5'))
 spec('inference.result.result_from_dict', result_dict=to_dict_of(result()))
